@@ -1029,3 +1029,95 @@ Proof.
     { split; auto. rewrite negb_involutive. destruct (availb (c_reg c) 0) eqn:A; [rewrite (availb_known _ _ A)|rewrite andb_false_r]; reflexivity. }
     destruct (hstep_inv c (HSlice keep) _ false 0 _ C eq_refl) as [[W _] _]. auto.
 Qed.
+
+(* ================================================================== statements as pinned in Properties/C14.v *)
+Lemma P_C14_tour_wf_history : forall (c : bool) (ops : list top) (t : tour),
+  guarded (tour_new c) ops -> trun (tour_new c) ops = Some t ->
+  ((exists mid, t_acts t = start_act :: mid ++ (if t_closed t then [end_act] else []) /\
+                Forall (fun a => a_job a <> None) mid) /\
+   (NoDup (t_jobs t) /\ forall j, In j (t_jobs t) <-> exists a, In a (t_acts t) /\ a_job a = Some j)) /\
+  t_closed t = c.
+Proof.
+  intros c ops t G H. destruct (wftour_history c ops t G H) as [[[mid [A F]] J] C]. split; auto. split; auto.
+  exists mid. split; auto. eapply Forall_impl; [|exact F]. unfold hasjob. intros a Ha. destruct (a_job a); congruence.
+Qed.
+
+Lemma P_C14_tour_wf_history_no_insert_at : forall (c : bool) (ops : list top) (t : tour),
+  forallb no_insert_at ops = true -> trun (tour_new c) ops = Some t -> WFTour t /\ t_closed t = c.
+Proof. intros c ops t N H. apply (wftour_history c ops t); auto. apply guarded_no_insert_at; auto. Qed.
+
+Lemma P_C14_tour_step_refines : forall (t : tour) (o : top),
+  WFTour t -> in_guard t o ->
+  abs_res (tstep t o) = spec_step (abs t) o /\
+  forall t' r, tstep t o = Some (t', r) -> WFTour t' /\ t_closed t' = t_closed t.
+Proof.
+  intros t o W G. split; [apply tour_refines; auto|]. intros t' r H. split; [eapply wftour_step; eauto|eapply closed_step; eauto].
+Qed.
+
+Lemma P_C14_tour_legs : forall t, WFweak t ->
+  length (legs t) = total t - (if t_closed t then 1 else 0) /\
+  forall i, i < total t - (if t_closed t then 1 else 0) ->
+            nth_error (legs t) i = Some (firstn 2 (skipn i (t_acts t)), i).
+Proof. intros t W. destruct (wfweak_nonempty t W) as [NE C2]. apply legs_spec; auto. Qed.
+
+Lemma P_C14_registry_new : forall gs,
+  WFReg (reg_new gs) /\ forall a, In a (available (reg_new gs)) <-> a < length gs.
+Proof.
+  intros gs. split; [apply reg_new_wf|]. intros a. rewrite (available_iff _ _ (reg_new_wf gs)).
+  destruct (reg_new_all_free gs a) as [-> _]. apply Nat.ltb_lt.
+Qed.
+
+Lemma P_C14_registry_use_spec : forall r a r' b,
+  WFReg r -> use_actor r a = (r', b) ->
+  WFReg r' /\ (b = true <-> In a (available r)) /\
+  (forall x, In x (available r') <-> In x (available r) /\ (b = true -> x <> a)) /\ r_all r' = r_all r.
+Proof.
+  intros r a r' b W H. destruct (use_actor_spec r a r' b W H) as [W' [Eb [Av [_ Ea]]]].
+  split; auto. split; [rewrite (available_iff _ _ W), Eb; tauto|]. split; auto.
+  intros x. rewrite (available_iff _ _ W'), (available_iff _ _ W), Av, andb_true_iff, negb_true_iff.
+  destruct b; cbn; [rewrite Nat.eqb_neq|]; intuition congruence.
+Qed.
+
+Lemma P_C14_registry_free_spec : forall r a r' b,
+  WFReg r -> free_actor r a = (r', b) ->
+  WFReg r' /\ (b = true <-> In a (r_all r) /\ ~ In a (available r)) /\
+  (forall x, In x (available r') <-> In x (available r) \/ (b = true /\ x = a)) /\ r_all r' = r_all r.
+Proof.
+  intros r a r' b W H. destruct (free_actor_spec r a r' b W H) as [W' [Eb [Av [_ Ea]]]].
+  split; auto. split.
+  - rewrite (available_iff _ _ W), Eb, andb_true_iff, negb_true_iff. destruct W as [_ [_ [_ W4]]]. rewrite W4.
+    destruct (availb r a); intuition congruence.
+  - split; auto. intros x. rewrite (available_iff _ _ W'), (available_iff _ _ W), Av, orb_true_iff, andb_true_iff, Nat.eqb_eq. tauto.
+Qed.
+
+Lemma P_C14_registry_slice_spec : forall r keep,
+  WFReg r ->
+  WFReg (deep_slice r keep) /\
+  (forall x, In x (available (deep_slice r keep)) <-> In x (available r) /\ keep x = true) /\
+  r_all (deep_slice r keep) = filter keep (r_all r).
+Proof.
+  intros r keep W. destruct (deep_slice_spec r keep W) as [W' [Av [_ Ea]]]. split; auto. split; auto.
+  intros x. rewrite (available_iff _ _ W'), (available_iff _ _ W), Av, andb_true_iff. tauto.
+Qed.
+
+Lemma P_C14_registry_next_sound : forall r picks x, In x (next_with picks (r_avail r)) -> In x (available r).
+Proof. intros r picks x. apply next_with_sound. Qed.
+
+Lemma P_C14_registry_next_complete : forall r picks,
+  picks_ok picks (r_avail r) -> length (next_with picks (r_avail r)) = nonempty_groups (r_avail r).
+Proof. intros r picks. apply next_with_complete. Qed.
+
+Lemma P_C14_nonvacuous_tour :
+  exists ops t, guarded (tour_new true) ops /\ trun (tour_new true) ops = Some t /\ length (abs t) = 2 /\ job_count t = 1.
+Proof.
+  exists [TInsertLast (mkAct (Some 3) 2); TInsertAt (mkAct (Some 3) 3) 1; TInsertAt (mkAct (Some 4) 4) 3; TRemoveAt 3].
+  eexists. split; [cbn; repeat split; lia|]. split; [reflexivity|]. split; reflexivity.
+Qed.
+
+Lemma P_C14_nonvacuous_registry :
+  exists gs hs c tr, hrun (rctx_new gs) hs = (c, tr) /\ held_after 1 false tr = true /\ ~ In 1 (available (c_reg c)) /\
+                     In 0 (available (c_reg c)).
+Proof.
+  exists [0; 0; 3], [HOp (RGet 1); HOp (RUse 1); HOp (RFree 0); HSlice [0; 1]]. eexists. eexists.
+  split; [reflexivity|]. split; [reflexivity|]. split; cbn; intuition lia.
+Qed.
